@@ -105,3 +105,17 @@ Theorem C01_forbid_readonly_refuted : exists names keys,
   forbid_valid names keys = true /\ sends_no_readonly names keys = false.
 Proof. exists ro_names, ro_keys. exact forbid_two_refuted. Qed.
 Print Assumptions C01_forbid_readonly_refuted.
+
+(* converter.rewrite_properties as a whole (properties / required / not.required / additionalProperties) on key sets:
+   with at most one read-only property the converted request schema accepts exactly what a client may send;
+   and a closed object (additionalProperties: false) never lets a read-only property through, whatever their number *)
+Theorem C01_rewrite_properties_partial : forall props required ro closed keys,
+  readonly_le1' ro = true ->
+  converted_accepts props required ro closed keys = request_view_accepts props required ro closed keys.
+Proof. exact converted_one. Qed.
+Print Assumptions C01_rewrite_properties_partial.
+
+Theorem C01_rewrite_properties_closed_clean : forall props required ro keys,
+  converted_accepts props required ro true keys = true -> sends_no_readonly ro keys = true.
+Proof. exact converted_closed_clean. Qed.
+Print Assumptions C01_rewrite_properties_closed_clean.
